@@ -18,7 +18,7 @@ Three exhaustive enumerations (mode C), each its own family of worker tasks:
     (an accepted id must still be `name + "-v" + numeral` with `int(numeral) == N`).
 
 (b) `history:*` explicit-state exploration of the process-global registry: all sequences of length
-    <= 3 (quick) / <= 4 (thorough) over 9 operations (register idA with class A and kwargs1, register
+    <= 3 (quick) / <= 4 (thorough) over 11 operations (incl. a zero-padded spelling of idA for register and make; register idA with class A and kwargs1, register
     idA with class B and kwargs2, register idB, register a malformed id, register a version-less id,
     make idA, make idA with overriding kwargs, make idB, make an unregistered id), replayed from an
     empty registry and from the shipped registry, against a dict reference model.  idA, idB and the
@@ -324,6 +324,7 @@ class StubEnvB(_Stub):
 
 ID_A, ID_B, ID_UNKNOWN = "McStubA-v0", "McStubA-v1", "McStubA-v2"  # same name, three versions
 ID_BAD, ID_NOVER = "Mc StubA-v0", "McStubA"
+ID_A_PAD = "McStubA-v00"  # another spelling of (McStubA, 0): the same registration as ID_A
 STUB_IDS = (ID_A, ID_B, ID_UNKNOWN)
 EP = {"A": f"{MOD}:StubEnvA", "B": f"{MOD}:StubEnvB"}
 KW1 = {"size": 3, "opts": [1, 2], "cfg": {"k": 1}}
@@ -336,7 +337,9 @@ OPS: Dict[str, Tuple[Any, ...]] = {
     "register(idB,E1)": ("register", ID_B, "A", None),
     "register(malformed)": ("register", ID_BAD, "A", KW1),
     "register(versionless)": ("register", ID_NOVER, "A", KW1),
+    "register(idA~zero-padded,E2,kw2)": ("register", ID_A_PAD, "B", KW2),
     "make(idA)": ("make", ID_A, {}),
+    "make(idA~zero-padded)": ("make", ID_A_PAD, {}),
     "make(idA,override)": ("make", ID_A, OVERRIDE),
     "make(idB)": ("make", ID_B, {}),
     "make(unknown)": ("make", ID_UNKNOWN, {}),
@@ -373,10 +376,15 @@ def run_history(base: str, ops: List[str], acc: Optional[_Acc] = None, verbose: 
                 probs.append(("registry:contents-differ-from-model",
                               f"{where}: registered_environments() has extra {sorted(got - want)} / lacks {sorted(want - got)}"))
 
+        def canon_id(env_id: str) -> str:
+            p = ref_parse(env_id)
+            return env_id if p is None else f"{p[0]}-v{int(p[1])}"
+
         def do_make(env_id: str, over: Dict[str, Any], where: str) -> None:
             nonlocal overridden
+            asked, env_id = env_id, canon_id(env_id)  # (name, N) identifies the registration, not its spelling
             try:
-                inst = registration.make(env_id, **copy.deepcopy(over))
+                inst = registration.make(asked, **copy.deepcopy(over))
                 exc: Optional[BaseException] = None
             except Exception as e:  # noqa: BLE001
                 inst, exc = None, e
@@ -435,11 +443,12 @@ def run_history(base: str, ops: List[str], acc: Optional[_Acc] = None, verbose: 
                     exc = e
                     probs.append(("register:raises-non-ValueError", f"{where}: {type(e).__name__}: {e}"))
                 malformed = ref_parse(env_id) is None
+                asked, env_id = env_id, canon_id(env_id)
                 dup = env_id in model or env_id in base_ids
                 if malformed or dup:
                     if exc is None:
                         probs.append(("register:accepts-malformed-id" if malformed else "register:duplicate-not-refused",
-                                      f"{where}: register({env_id!r}) did not raise"))
+                                      f"{where}: register({asked!r}) did not raise"))
                     else:
                         cnt("malformed_registrations_refused" if malformed else "duplicate_registrations_refused")
                         if env_id in model and model[env_id][0] != tag:
@@ -724,7 +733,7 @@ def main(tier: str, seed: int) -> int:
         "of length <= 5 containing a newline over that alphabet + newline, names of length <= 3 x 11 versions up to "
         "10**100; non-ASCII ids (unicode digits/letters are accepted by \\d/\\w) are reported, not judged",
         "rejected/refused means ValueError, as the docstrings of parse_env_id and _check_registration_is_allowed say",
-        "registry histories: every sequence of <= 3 (quick) / 4 (thorough) of 9 operations from the empty and from the "
+        "registry histories: every sequence of <= 3 (quick) / 4 (thorough) of 11 operations from the empty and from the "
         "shipped registry; stub environments record their constructor arguments",
         "Sokoban-v0 is made with generator=ToyGenerator() (dataset needs the network; conceded by the property)",
         "identical behaviour of two makes = equal (state, timestep) leaves for reset keys 0..3 and four fixed actions "
